@@ -95,11 +95,16 @@ struct Generator<'a, 'b> {
     usage_count: &'a HashMap<Var, usize>,
     out: &'b mut dyn Write,
     lut: HashMap<Var, String>,
+    /// Inlined values that are not literals and have not been used yet, in the order they
+    /// were computed. They may read mutable state (a field, the contents of a list), so they
+    /// have to be evaluated before the next statement with side effects runs.
+    pending: Vec<Var>,
+    literal: bool,
 }
 
 impl<'a, 'b> Generator<'a, 'b> {
     pub fn new(usage_count: &'a HashMap<Var, usize>, out: &'b mut dyn Write) -> Self {
-        Self { usage_count, out, lut: HashMap::new() }
+        Self { usage_count, out, lut: HashMap::new(), pending: Vec::new(), literal: false }
     }
 
     fn comma_sep(&mut self, vars: &[Var]) -> String {
@@ -111,13 +116,33 @@ impl<'a, 'b> Generator<'a, 'b> {
 
     fn expand(&mut self, var: &Var) -> String {
         match self.lut.get(var) {
-            Some(var) => var.into(),
+            Some(value) => {
+                self.pending.retain(|p| p != var);
+                value.into()
+            }
             None => var.format(),
         }
     }
 
     fn define(&mut self, var: Var, value: String) {
+        if !self.literal {
+            self.pending.push(var);
+        }
         self.lut.insert(var, value);
+    }
+
+    /// Evaluates the inlined values that are still waiting to be used, so a statement that
+    /// calls a function, assigns or branches does not run before operands to its left.
+    /// Called after the indentation of the current line has been written.
+    fn flush(&mut self, depth: i32) {
+        for var in std::mem::take(&mut self.pending) {
+            if let Some(value) = self.lut.remove(&var) {
+                write!(self.out, "local {} = {}\n", var.format(), value);
+                for _ in 0..depth {
+                    write!(self.out, "  ");
+                }
+            }
+        }
     }
 
     #[sylt_macro::timed("lua::generate")]
@@ -143,6 +168,10 @@ impl<'a, 'b> Generator<'a, 'b> {
             for _ in 0..depth {
                 write!(self.out, "  ");
             }
+            self.literal = matches!(
+                instruction,
+                IR::Nil(_) | IR::Int(_, _) | IR::Bool(_, _) | IR::Str(_, _) | IR::Float(_, _)
+            );
             match instruction {
                 IR::Nil(t) => iis!(self, t, "__NIL"),
                 IR::Int(t, i) => iis!(self, t, "{}", i),
@@ -189,6 +218,7 @@ impl<'a, 'b> Generator<'a, 'b> {
                 IR::Index(t, a, i) => ii!(self, t, "__INDEX({}, {})", a, i),
 
                 IR::Function(f, params) => {
+                    self.flush(depth);
                     write!(self.out, "local ");
                     write!(self.out, "function ");
                     let f = self.expand(f);
@@ -215,13 +245,14 @@ impl<'a, 'b> Generator<'a, 'b> {
                 }
 
                 IR::Call(t, f, args) => {
-                    write!(self.out, "local ");
                     let t = self.expand(t);
+                    let f = self.expand(f);
+                    let args = self.comma_sep(args).to_string();
+                    self.flush(depth);
+                    write!(self.out, "local ");
                     write!(self.out, "{}", t);
                     write!(self.out, " = ");
-                    let f = self.expand(f);
                     write!(self.out, "{}", f);
-                    let args = self.comma_sep(args).to_string();
                     write!(self.out, "({})", args);
                 }
 
@@ -241,8 +272,9 @@ impl<'a, 'b> Generator<'a, 'b> {
                 }
 
                 IR::If(a) => {
-                    write!(self.out, "if ");
                     let a = self.expand(a).to_string();
+                    self.flush(depth);
+                    write!(self.out, "if ");
                     write!(self.out, "{}", a);
                     write!(self.out, " then");
                     depth += 1;
@@ -255,6 +287,7 @@ impl<'a, 'b> Generator<'a, 'b> {
                     write!(self.out, "end");
                 }
                 IR::Loop => {
+                    self.flush(depth);
                     write!(self.out, "while true do");
                     depth += 1;
                 }
@@ -265,6 +298,7 @@ impl<'a, 'b> Generator<'a, 'b> {
                     // Lua only allows `return` as the last statement of a block, Sylt allows
                     // statements after a `ret`.
                     let t = self.expand(t).to_string();
+                    self.flush(depth);
                     write!(self.out, "do return {} end", t);
                 }
                 IR::HaltAndCatchFire(msg) => {
@@ -286,6 +320,7 @@ impl<'a, 'b> Generator<'a, 'b> {
                     if self.usage_count.get(t).unwrap_or(&0) > &0 {
                         let a = self.expand(a);
                         let t = self.expand(t);
+                        self.flush(depth);
                         write!(self.out, "{} = {}", t, a);
                     }
                 }
@@ -294,6 +329,7 @@ impl<'a, 'b> Generator<'a, 'b> {
                         let a = self.expand(a);
                         let i = self.expand(i);
                         let t = self.expand(t);
+                        self.flush(depth);
                         write!(self.out, "__ASSIGN_INDEX({}, {}, {})", t, i, a);
                     }
                 }
@@ -301,6 +337,7 @@ impl<'a, 'b> Generator<'a, 'b> {
                     if self.usage_count.get(t).unwrap_or(&0) > &0 {
                         let t = self.expand(t);
                         let c = self.expand(c);
+                        self.flush(depth);
                         write!(self.out, "{}{} = {}", t, field_access(f), c);
                     }
                 }
